@@ -82,3 +82,41 @@ let run_sched fixed line =
 let run_case line =
   if String.length line > 2 && String.sub line 0 2 = "QH" then run_sched true line
   else run_fixed true line
+
+(* the same Q case as a Gallina equation (kernel cross-check of the extracted machine) *)
+let g_sout = function SOk -> "SOk" | SPanic -> "SPanic" | SErr e -> "(SErr " ^ g_nat e ^ ")"
+let g_action = function
+  | AEmit -> "AEmit" | AClone -> "AClone" | ADrop -> "ADrop" | ASample -> "ASample"
+  | ARelease o -> "(ARelease " ^ g_sout o ^ ")"
+let g_result = function ROk -> "ROk" | RFull -> "RFull" | RNone -> "RNone"
+let g_bool b = if b then "true" else "false"
+
+let coq_header =
+  "Require Import Cadence.Base.Prelude Cadence.Model.Queue.\n" ^
+  "Definition kq (r : qstate * list obs) := (map (fun o => (ob_result o, ob_sample o)) (snd r), q_delivered (fst r), " ^
+  "q_handled (fst r), (q_submitted (fst r), q_drained (fst r), q_panics (fst r)), sink_released (fst r)).\n"
+
+let coq_case line =
+  match tokens line with
+  | ["Q"; cap; handler; actions] when String.length actions < 400 ->
+    let capv = if cap = "u" then None else Some (nat_of_int (int_of_string cap)) in
+    let h = (handler = "1") in
+    let acts_l = List.map parse_action (split_on ',' actions) in
+    let s0 = init_q capv h in
+    let (s, os) = acts true (settle true (fuel_of s0) s0) acts_l in
+    let init = Printf.sprintf "(init_q %s %s)" (g_option g_nat capv) (g_bool h) in
+    let lhs = Printf.sprintf "kq (acts true (settle true (fuel_of %s) %s) %s)" init init
+        (if acts_l = [] then "(@nil action)" else g_list g_action acts_l) in
+    let g_obs o = "(" ^ g_result o.ob_result ^ ", " ^
+      (match o.ob_sample with
+       | None -> "(@None (nat * nat * nat * nat))"
+       | Some (((a, b), c), d) -> Printf.sprintf "(Some (%s, %s, %s, %s))" (g_nat a) (g_nat b) (g_nat c) (g_nat d)) ^ ")" in
+    let rhs = Printf.sprintf "(%s, %s, %s, (%s, %s, %s), %s)"
+        (if os = [] then "(@nil (result * option (nat * nat * nat * nat)))" else g_list g_obs os)
+        (if s.q_delivered = [] then "(@nil (nat * soutcome))"
+         else g_list (fun (i, o) -> "(" ^ g_nat i ^ ", " ^ g_sout o ^ ")") s.q_delivered)
+        (if s.q_handled = [] then "(@nil (nat * nat))"
+         else g_list (fun (i, e) -> "(" ^ g_nat i ^ ", " ^ g_nat e ^ ")") s.q_handled)
+        (g_nat s.q_submitted) (g_nat s.q_drained) (g_nat s.q_panics) (g_bool (sink_released s)) in
+    Some (lhs ^ " = " ^ rhs)
+  | _ -> None
